@@ -90,12 +90,14 @@ func crashPlans(check, tier string) []crashPlan {
 			{[]string{"w1", "s1", "t2", "p"}, 3, crashConfigs(""), 0, 0, 1, []string{"s0"}},
 			// database switches around a crash: position stored in a db > 0, then the source returns to db 0
 			{[]string{"w1", "s1", "s0"}, 4, crashConfigs("db"), 0, 0, 1, []string{"s0"}},
+			// argument shapes (empty string, binary bytes): offsets are byte counts of what was decoded
+			{[]string{"we", "w2", "w1"}, 2, crashConfigs(""), 0, 0, 1, []string{"s0"}},
 		}
 	case "C07":
 		alpha := []string{"w1", "s1", "t1", "p", "n", "g"}
 		if tier == "thorough" {
 			return []crashPlan{
-				{alpha, 3, crashConfigs(""), 2, 3, 1, []string{"s0"}},
+				{append([]string{"we", "w2"}, alpha...), 3, crashConfigs(""), 2, 3, 1, []string{"s0"}},
 				{alpha, 2, crashConfigs("all"), 2, 3, 2, []string{"s0"}},
 				{alpha, 1, crashConfigs("all"), 3, 3, 2, nil},
 			}
@@ -103,6 +105,7 @@ func crashPlans(check, tier string) []crashPlan {
 		return []crashPlan{
 			{alpha, 2, crashConfigs(""), 1, 2, 1, []string{"s0"}},
 			{alpha, 1, crashConfigs(""), 2, 3, 1, nil},
+			{[]string{"we", "w2", "w1", "p"}, 2, crashConfigs(""), 0, 1, 1, []string{"s0"}},
 		}
 	case "C09":
 		alpha := []string{"t1", "t2", "t3", "ts", "w1", "s1"}
